@@ -1,5 +1,61 @@
-import GoRedisModel.Model.Show
-/-! placeholder until the theorems of C04 are written -/
+import GoRedisModel.Proofs.Frames
+/-! # C04 — the reply stream is always well-formed RESP, whatever clients or handlers supply -/
 namespace GoRedis
-theorem C04_placeholder : True := trivial
+
+/-- the payloads of the `conn.Write` calls of a trace, in order -/
+def writes : List Ev → List Bytes
+  | [] => []
+  | .wr bs :: es => bs :: writes es
+  | _ :: es => writes es
+
+theorem mem_writes (evs : List Ev) (bs : Bytes) : bs ∈ writes evs ↔ Ev.wr bs ∈ evs := by
+  induction evs with
+  | nil => simp [writes]
+  | cons e es ih => cases e <;> simp [writes, ih]
+
+/-- **Every write is one complete RESP value**, for *every* client byte stream (`input` is arbitrary, not
+only valid RESP), every server state, and every sequence of handler results (`script` ranges over all
+message types with arbitrary payloads, nil messages, nil arrays, nil elements, errors with arbitrary text,
+message + error).  A result whose serialization would dereference nil produces no write at all (the
+connection is closed), which the property allows. -/
+theorem C04_every_write_is_a_frame (pf : FloatOracle) (srv : SrvSt) (requirePass : Bool) (input : Bytes)
+    (script : List HRes) : ∀ bs ∈ writes (serve pf srv requirePass input script), Frame bs := by
+  intro bs h
+  rw [mem_writes] at h
+  simp only [serve, List.mem_append, List.mem_cons] at h
+  rcases h with h | h
+  · rcases h with h | h
+    · simp at h
+    · exact serveLoop_writes pf _ srv _ input script bs h
+  · simp at h
+
+/-- Hence everything the server writes on a connection is a concatenation of complete values. -/
+theorem C04_framed (pf : FloatOracle) (srv : SrvSt) (requirePass : Bool) (input : Bytes) (script : List HRes) :
+    Frames (writes (serve pf srv requirePass input script)).flatten :=
+  ⟨writes (serve pf srv requirePass input script), C04_every_write_is_a_frame pf srv requirePass input script, rfl⟩
+
+/-- A status or error reply never carries a raw CR or LF inside its text: whatever bytes the text is made
+of (client-controlled command names and arguments, handler error texts), the serialized line is
+`type byte, text without CR/LF, CRLF`. -/
+theorem C04_line_reply_sanitised (t : LineTy) (text : Bytes) :
+    ∃ p, enc (.line t text) = t.byte :: p ++ CRLF ∧ CR ∉ p ∧ LF ∉ p ∧ p.length = text.length :=
+  ⟨sanitize text, rfl, sanitize_no_cr text, sanitize_no_lf text, by simp [sanitize]⟩
+
+/-- A request the server cannot interpret (a non-array value; a handler returning nothing) is answered
+with a framed error, never unframed bytes. -/
+theorem C04_uninterpretable_request (o : Out) (h : o = .reply .absent) :
+    replyBytes o = some (enc systemErrorMsg) ∧ Frame (enc systemErrorMsg) := by
+  subst h; exact ⟨rfl, enc_frame _ (by simp [systemErrorMsg, noAbsent])⟩
+
+/-! ## Non-vacuity: a hostile case evaluated -/
+
+/-- `*1 $10 "foo\r\n+OK\r\n"` (a command name forging a frame) is answered with one error line whose text
+has no CR/LF -/
+example : ∃ bs, writes (serve (fun _ => none) {} false b!"*1\r\n$10\r\nfoo\r\n+OK\r\n\r\n" []) = [bs] ∧ Frame bs := by
+  have h := C04_every_write_is_a_frame (fun _ => none) {} false b!"*1\r\n$10\r\nfoo\r\n+OK\r\n\r\n" []
+  generalize hw : writes (serve (fun _ => none) {} false b!"*1\r\n$10\r\nfoo\r\n+OK\r\n\r\n" []) = w at h
+  have : w.length = 1 := by rw [← hw]; rfl
+  match w, this with
+  | [bs], _ => exact ⟨bs, rfl, h bs (by simp)⟩
+
 end GoRedis
